@@ -680,8 +680,10 @@ class NetCDF4(FileHandler):
         # xarray dataset.
 
         with netCDF4.Dataset(file_info.path, "r") as root:
-            # xarray decode_cf scales, don't do it twice!
-            root.set_auto_scale(False)
+            # xarray decode_cf scales and masks, don't do it twice! (masked
+            # arrays would turn all integers into floats and every value that
+            # equals the default fill value of its type into NaN)
+            root.set_auto_maskandscale(False)
             dataset = xr.Dataset()
             self._load_group(dataset, None, root, fields)
 
